@@ -832,6 +832,7 @@ func UpdateMinMax(stats *SegStats, value sutils.CValueEnclosure) {
 }
 
 func (ss *SegStats) Merge(other *SegStats) {
+	ss.IsNumeric = ss.IsNumeric || other.IsNumeric
 	ss.Count += other.Count
 	ss.Records = append(ss.Records, other.Records...)
 	if ss.Hll != nil && other.Hll != nil {
